@@ -222,6 +222,12 @@ class ExtName:
     def __init__(self, dotted):
         self.dotted = dotted
 
+    def __eq__(self, other):
+        return isinstance(other, ExtName) and other.dotted == self.dotted
+
+    def __hash__(self):
+        return hash(self.dotted)
+
     def __repr__(self):
         return f"Ext({self.dotted})"
 
